@@ -6,6 +6,7 @@ package kcache
 import (
 	"encoding/hex"
 	"fmt"
+	"math"
 	"strconv"
 	"strings"
 
@@ -468,7 +469,12 @@ func (Engine) Run(c *simkit.Choices, x *simkit.Ctx) *simkit.Violation {
 	f := model.Formats[c.N(3)]
 	cd := common.ByName(f)
 	capacity := capacities[c.N(len(capacities))]
-	exactCap := c.N(4) == 0 // capacity = number of distinct keys (+-1), decided once the alphabet is known
+	if c.N(40) == 0 {
+		// "unlimited": capacities far beyond anything that will ever be cached,
+		// with and without bits set where a narrower counter would look
+		capacity = []int{math.MaxInt64, 1 << 62, 1<<50 | 1<<31, 1<<41 + 5, math.MaxInt64 - 1, 1<<63 - 1<<31}[c.N(6)]
+	}
+	exactCap := c.N(4) == 0 && capacity < 1<<30 // capacity = number of distinct keys (+-1), decided once the alphabet is known
 	target := targets[c.N(len(targets))]
 	te := model.TypeByName(target)
 	g := newKeyGen(c)
